@@ -638,8 +638,8 @@ Definition d_int : str := [40;76;106;97;118;97;47;108;97;110;103;47;73;110;116;1
 Definition acc_plain := mkAcc false false false false false.
 Definition ex_jar : jar :=
   [mkJC n_MyNode (Some n_Node) []
-     [mkJM n_setData d_int acc_plain (Some [(n_Node, (n_setData, d_obj))]);
-      mkJM n_setData d_obj (mkAcc false false false true true) (Some [(n_MyNode, (n_setData, d_int))])];
+     [mkJM n_setData d_int acc_plain (Some [IOther; ISpecial (n_Node, (n_setData, d_obj)) false; IOther]);
+      mkJM n_setData d_obj (mkAcc false false false true true) (Some [IOther; IVirtual (n_MyNode, (n_setData, d_int)); IOther])];
    mkJC n_Node (Some s_object) [] [mkJM n_setData d_obj acc_plain (Some [])]].
 Definition ex_bridge : mref := (n_MyNode, (n_setData, d_obj)).
 Definition ex_delegate : mref := (n_MyNode, (n_setData, d_int)).
@@ -647,7 +647,7 @@ Definition ex_delegate : mref := (n_MyNode, (n_setData, d_int)).
 Definition ex_jar_unflagged : jar :=
   [mkJC n_MyNode (Some n_Node) []
      [mkJM n_setData d_int acc_plain (Some []);
-      mkJM n_setData d_obj (mkAcc false false false false true) (Some [(n_MyNode, (n_setData, d_int))])];
+      mkJM n_setData d_obj (mkAcc false false false false true) (Some [IOther; IVirtual (n_MyNode, (n_setData, d_int)); IOther])];
    mkJC n_Node (Some s_object) [] [mkJM n_setData d_obj acc_plain (Some [])]].
 Definition n_named : str := [117;112;100;97;116;101].   (* update *)
 Definition ex_cal : mappings := mkMappings [s_official; s_intermediary] None [].
@@ -707,7 +707,7 @@ Proof.
   unfold get_higher. destruct (walk fuel (ix_children J) [mr_class b1] []) as [l|] eqn:Ew; [|discriminate].
   intros [= <-].
   assert (Hl : forall x, In x l <-> descendant J (mr_class b1) x).
-  { intros x. rewrite (walk_spec _ _ (ix_children_spec J) _ _ _ _ Ew x). cbn [In]. unfold descendant. split.
+  { intros x. rewrite (walk_spec _ _ (ix_children_spec J) _ _ _ _ Ew (closed_inv_start _ _) x). cbn [In]. unfold descendant. split.
     - intros [[]|(c & [<-|[]] & Ht)]. exact Ht.
     - intros Ht. right. exists (mr_class b1). auto. }
   destruct (mem_str (mr_class b2) l) eqn:Em.
